@@ -270,7 +270,11 @@ def tokenRun (td : Int) : Option Retry → List Ans → List Ev × Option Retry
       let (more, r'') := tokenRun td r' rest
       (.request :: evs ++ more, r'')
 
-def requests (evs : List Ev) : Nat := evs.count .request
+def Ev.isRequest : Ev → Bool
+  | .request => true
+  | _ => false
+
+def requests (evs : List Ev) : Nat := evs.countP Ev.isRequest
 
 /-- `ApplyTaskResult` / `ApplyTaskDataOutput`: for each DECLARED name, in order, store the supplied value if there
 is one (first match of the name among the supplied pairs) -/
@@ -280,5 +284,20 @@ def restrictTo {α β : Type} (declared : List String) (set : α → String → 
     match supplied.find? (·.1 == name) with
     | some (_, v) => set st name v
     | none => st) store
+
+/-- attempts made so far by the token (`f.retry == nil`: none) -/
+def attemptsOf : Option Retry → Int
+  | none => 0
+  | some r => r.attempts
+
+/-- `f` failures answered with the retry handler `n`, then a success -/
+def failThenOk (n : Int) (f : Nat) : List Ans := List.replicate f (.err (.mode 1 n)) ++ [.ok]
+
+/-- every retry handler in the history carries a bounded count `≤ n` (and not the sentinel) -/
+def BoundedBy (n : Int) (answers : List Ans) : Prop :=
+  ∀ k, Ans.err (.mode 1 k) ∈ answers → k ≠ -1 ∧ k ≤ n
+
+/-- the value supplied under a name -/
+def supplied? (supplied : List (String × Int)) (k : String) : Option Int := (supplied.find? (·.1 == k)).map (·.2)
 
 end Bpmn.Model.TaskTrace
